@@ -24,6 +24,7 @@ const (
 	opJoin   = 1
 	opReload = 2
 	opSetID  = 3
+	opJoinPartial = 4
 )
 
 type histCfg struct {
@@ -36,11 +37,12 @@ type histCfg struct {
 	emptyAt  int  // index of the append that carries an empty payload (-1 = none)
 	realIO   bool // the real default CBOR codec over the store's DAG service and real (keystore) identities
 	setID    bool // step kind "set identity": the replica switches to the next writer identity
+	partial  bool // step kind "join partial": merge a log holding only the source's head entries (what a length-limited load yields)
 }
 
 func histParams() histCfg {
 	return histCfg{R: vx.Param("R", 2), K: vx.Param("K", 3), W: vx.Param("W", 2), sort: vx.Param("SORT", sortHash),
-		symClock: vx.Param("SYMCLOCK", 0) == 1, reload: vx.Param("RELOAD", 0) == 1, deny: vx.Param("DENY", 0) == 1, pcN: vx.Param("PCN", 1), emptyAt: vx.Param("EMPTYAT", -1), realIO: vx.Param("REALIO", 0) == 1, setID: vx.Param("SETID", 0) == 1}
+		symClock: vx.Param("SYMCLOCK", 0) == 1, reload: vx.Param("RELOAD", 0) == 1, deny: vx.Param("DENY", 0) == 1, pcN: vx.Param("PCN", 1), emptyAt: vx.Param("EMPTYAT", -1), realIO: vx.Param("REALIO", 0) == 1, setID: vx.Param("SETID", 0) == 1, partial: vx.Param("PARTIAL", 0) == 1}
 }
 
 var pcTable = []int{0, 2, 4, 3, 8, -1, 16, 1}
@@ -120,6 +122,10 @@ func (h *hist) run(pre func(h *hist), post func(h *hist)) {
 	if h.cfg.setID {
 		nOps += R
 	}
+	base := nOps
+	if h.cfg.partial {
+		nOps += R * (R - 1)
+	}
 	for s := 0; s < h.cfg.K; s++ {
 		h.step = s
 		op := 0
@@ -128,6 +134,12 @@ func (h *hist) run(pre func(h *hist), post func(h *hist)) {
 		}
 		h.res, h.err, h.pc = nil, nil, 0
 		switch {
+		case op >= base:
+			k := op - base
+			h.kind, h.dst, h.src = opJoinPartial, k/(R-1), k%(R-1)
+			if h.src >= h.dst {
+				h.src++
+			}
 		case op < R:
 			h.kind, h.dst, h.src = opAppend, op, -1
 			if h.cfg.pcN > 1 {
@@ -165,6 +177,9 @@ func (h *hist) run(pre func(h *hist), post func(h *hist)) {
 			h.nAppend++
 		case opJoin:
 			_, h.err = h.logs[h.dst].Join(h.logs[h.src], -1)
+		case opJoinPartial:
+			part := newLogOpt(h.api, h.writerOf(h.src), &ipfslog.LogOptions{SortFn: h.sortFn(), IO: h.io(), Entries: orderedMapOf(h.logs[h.src].Heads().Slice())})
+			_, h.err = h.logs[h.dst].Join(part, -1)
 		case opSetID:
 			h.cur[h.dst] = (h.cur[h.dst] + 1) % h.cfg.W
 			h.logs[h.dst].SetIdentity(h.ids[h.cur[h.dst]])
